@@ -21,7 +21,7 @@ Section Shape.
   Variable alphabeta : N -> N * N.         (* symsync::compute_loop_alphabeta(bandwidth) *)
   Variable is_training : N -> bool.        (* Equalizer::is_training on the mode token *)
 
-  Record mavg := mkMavg { ma_window : list N; ma_inv_len : N; ma_sum : N }.
+  Record mavg := mkMavg { ma_window : list N; ma_inv_len : N; ma_sum : N; ma_since : N }.   (* since_refresh: fix 2ef7c73 *)
   Record agc := mkAgc { ag_bandwidth : N; ag_min : N; ag_max : N; ag_locked : N; ag_gain : N }.
   Record demod := mkDemod { de_window : list N; de_mark : N; de_space : N }.
   Record symsync := mkSym {
@@ -55,7 +55,7 @@ Section Shape.
     end.
 
   (** * reset() methods, statement by statement *)
-  Definition mavg_reset (m : mavg) : mavg := mkMavg (zeros (ma_window m)) (ma_inv_len m) zero.
+  Definition mavg_reset (m : mavg) : mavg := mkMavg (zeros (ma_window m)) (ma_inv_len m) zero int0.
   Definition agc_reset (a : agc) : agc :=
     mkAgc (ag_bandwidth a) (ag_min a) (ag_max a) ffalse (initial_gain (ag_min a) (ag_max a)).
   Definition demod_reset (d : demod) : demod := mkDemod (zeros (de_window d)) (de_mark d) (de_space d).
@@ -103,8 +103,8 @@ Section Shape.
   Definition fresh (p : params) : receiver :=
     let '(a, b) := alphabeta (p_bw_unlocked p) in
     mkReceiver
-      (mkMavg (zeros_n (p_dc_len p)) (p_dc_inv_len p) zero)
-      (mkMavg (zeros_n (p_dc_len p)) (p_dc_inv_len p) zero)
+      (mkMavg (zeros_n (p_dc_len p)) (p_dc_inv_len p) zero int0)
+      (mkMavg (zeros_n (p_dc_len p)) (p_dc_inv_len p) zero int0)
       (mkAgc (p_agc_bw p) (p_gmin p) (p_gmax p) ffalse (initial_gain (p_gmin p) (p_gmax p)))
       (mkDemod (zeros_n (p_demod_len p)) (p_mark p) (p_space p))
       (mkSym (p_spt p) (p_pmin p) (p_pmax p) a b (p_spt p) (p_spt p) (zeros_n 3) int0)
